@@ -17,7 +17,7 @@ RULE = ('names 0..6 components of any type (incl. an existing ParametersSha256 c
         'packet value and the name length on 252/253/254/65535/65536, 70000; signers: none, digest, HMAC, RSA-2048, '
         'ECDSA P-256/384/521 (variable DER length), Ed25519, null, and a synthetic signer sweeping 0<=actual<=reserved<=300. '
         'The name is handed over as the caller\'s own list object (components as bytes, some as URI strings) and must be unchanged '
-        'after the call; one list object is used for an Interest with parameters, then a Data, then a plain Interest. '
+        'after the call; one list object is used for an Interest with parameters, then a Data, then a plain Interest; one MetaInfo / InterestParam OBJECT is used for 2-4 packets with its fields edited between them. '
         'Signer size contract: reserved sizes of real signer objects (ECDSA on P-192/224/256/384/521, Ed25519, HMAC, digest, null) '
         'against the translated arithmetic; real signatures written into a buffer of exactly the reserved size, r and s read back '
         'from the DER bytes and the DER length model compared with the real length, extreme r/s on every sign-bit boundary. '
@@ -43,7 +43,7 @@ def conv_interest_result(r):
             None if app is None else bytes(app))
 
 
-def one_interest(ctx, M, name, ip, app, signer, label):
+def one_interest(ctx, M, name, ip, app, signer, label, ip_obj=None):
     from ndn.encoding import make_interest, parse_interest, InterestParam
     rec = P.Rec(signer) if signer is not None else None
     case = {'kind': 'interest', 'signer': label, 'name': list(name), 'params': {k: v for k, v in ip.items() if k != 'forwarding_hint'},
@@ -51,7 +51,10 @@ def one_interest(ctx, M, name, ip, app, signer, label):
     given_name = list(name)             # the caller's own list object, handed over as it is
     given_hints = [list(n) for n in ip['forwarding_hint']]
     try:
-        wire, final = make_interest(name, InterestParam(**ip), app, rec, need_final_name=True)
+        if ip_obj is not None:       # a caller-owned InterestParam object used before: its fields are set to ip now
+            for k, v in ip.items():
+                setattr(ip_obj, k, v)
+        wire, final = make_interest(name, ip_obj if ip_obj is not None else InterestParam(**ip), app, rec, need_final_name=True)
         wire = bytes(wire)
         r = 'ok'
     except Exception as e:   # noqa
@@ -116,11 +119,17 @@ def one_interest(ctx, M, name, ip, app, signer, label):
     return wire, rec
 
 
-def one_data(ctx, M, name, meta_args, content, signer, label):
+def one_data(ctx, M, name, meta_args, content, signer, label, meta_obj=None):
     from ndn.encoding import make_data, parse_data, MetaInfo
     from ndn.encoding import ndn_format_0_3 as F
     rec = P.Rec(signer) if signer is not None else None
-    meta = MetaInfo(**meta_args) if meta_args is not None else None
+    if meta_obj is not None:
+        # a caller-owned MetaInfo object that has been used for earlier packets: its fields are set to meta_args now
+        for k in ('content_type', 'freshness_period', 'final_block_id'):
+            setattr(meta_obj, k, (meta_args or {}).get(k, 0 if k == 'content_type' else None))
+        meta = meta_obj
+    else:
+        meta = MetaInfo(**meta_args) if meta_args is not None else None
     mdesc = D.reflect_class(F.MetaInfo)
     meta_val = D.from_py(mdesc, meta) if meta is not None else None
     case = {'kind': 'data', 'signer': label, 'name': list(name), 'meta': meta_args, 'content_len': None if content is None else len(content)}
@@ -284,6 +293,22 @@ def run(ctx):
                 one_interest(ctx, M, shared, ipp, None, None, 'none.shared-name')
             if shared != snapshot:
                 shared = snapshot          # reported by the call above; go on with the name the caller meant
+    # 3c. ONE MetaInfo / InterestParam object used for several packets, its fields edited between the packets (the usual way to
+    #     segment an object: final_block_id set on the last segment only): every packet is what a fresh object would give
+    from ndn.encoding import MetaInfo as _MI, InterestParam as _IP
+    fbis = [None, G.tlv(50, b'\x09'), G.tlv(50, b'\x01\x00'), G.tlv(8, b'last')]
+    for i in range(ctx.n(40, 600)):
+        label, sg, _ = rng.choice(signers)
+        mo = _MI()
+        io = _IP()
+        for step in range(rng.choice([2, 3, 4])):
+            ma = dict(content_type=rng.choice([0, 0, 1, 2, 300, 1 << 33]), freshness_period=rng.choice([None, 0, 10, 255, 256, 4000, 65536, 1 << 33]),
+                      final_block_id=rng.choice(fbis))
+            one_data(ctx, M, [G.tlv(8, b'seg'), G.tlv(50, bytes([step]))], ma, rng.choice([b'', b'x', G.rand_bytes(rng, 40)]), sg,
+                     label + '.shared-metainfo', meta_obj=mo)
+            ipp = P.rand_interest_args(rng)[1]
+            one_interest(ctx, M, [G.tlv(8, b'q'), G.tlv(8, bytes([65 + step]))], ipp, rng.choice([None, b'p']), sg,
+                         label + '.shared-param', ip_obj=io)
     # 4. the size contract of the shipped signers (Model/SignerSizes.v, Generated/SignerSizes.v; C01_ecdsa_signature_fits)
     signer_sizes(ctx, M, keys)
 
